@@ -144,10 +144,10 @@ func c05r2(r *R) {
 			}
 			a, v := describe(st.Addr), describe(st.Val)
 			if strings.HasSuffix(a, ".(*net/http.Transport)"+tf) && strings.HasSuffix(v, pf) && strings.HasPrefix(v, "^0") {
-				toT = guardedBy(st.Block(), func(g string) bool { return strings.HasPrefix(g, "!(^0"+pf+" == nil)") })
+				toT = guardedBy(st.Block(), func(g string) bool { return strings.HasPrefix(g, "(^0"+pf+" != nil)") })
 			}
 			if a == "^0"+pf && strings.HasSuffix(v, ".(*net/http.Transport)"+tf) {
-				toP = guardedBy(st.Block(), eq("(^0"+pf+" == nil)"))
+				toP = guardedBy(st.Block(), eq("!(^0"+pf+" != nil)"))
 			}
 		})
 		r.check(toT && toP, "Proxy.init#same"+tf, lit.Pos(), "Transport"+tf+" and Proxy"+pf+" are made equal in both directions", "the Transport and the CONNECT path may end up with different "+strings.TrimPrefix(tf, ".")+" functions")
